@@ -112,3 +112,11 @@ prop("C14", modules=["deps"],
      trusted=["_extract_fn_ref_args (recursive walk over argument structures) is summarised by in_fnref_names (assumed)",
               "exactness of the collected rule list w.r.t. the program's reference graph (list_dotted_names / collect_transitive_dependencies) is NOT claimed: AST visitor and dynamic resolution are outside the verifier's subset"],
      assumptions=["x.fn_reference().qualified_name is a function of the memento function object within one call (qname_of)"])
+
+prop("C12", modules=["names"],
+     functions=["reference:FunctionReference.parse_qualified_name", "reference:FunctionReference.parse_qualified_name@ambiguous-cluster",
+                "reference:FunctionReference.__init__", "reference:FunctionReference.from_qualified_name", "external:UnboundExternalMementoFunction.__init__"],
+     split={"reference:FunctionReference.__init__": 12},
+     design_ref="DESIGN.md section 6, C12",
+     trusted=["backtracking semantics of re.match on the supported regex subset: the returned match is the most preferred feasible choice vector (pyvc/regex.py)"],
+     assumptions=[])
